@@ -90,6 +90,26 @@ EXTRA = {
 (assert (and flag (pred (tw num))))
 (assert (= (tw (tw num)) (+ num 1)))
 ''',
+    # a two-step history (processed in this order): the tables are rebuilt
+    # per input, so names that were constructors / selectors of a datatype in
+    # the previous input are plain functions and constants in the next one
+    'zz_history_1_datatype': '''
+(declare-datatype P ((mk (fst Int)) (red) (green)))
+(declare-const d P)
+(assert (= d (mk 1)))
+(assert (distinct d red green))
+(assert (> (fst d) 0))
+''',
+    'zz_history_2_names_reused': '''
+(declare-fun mk (Int) Int)
+(declare-fun fst (Bool) Bool)
+(declare-const red Int)
+(declare-const q Int)
+(declare-const b Bool)
+(assert (= (mk red) q))
+(assert (fst (> (mk q) red)))
+(assert (= b (fst b)))
+''',
     'ite_unknown_branch': '''
 (declare-fun u (Int) (_ BitVec 3))
 (declare-const c Bool)
